@@ -4,6 +4,7 @@ package main
 // the build tag `verif`, holding //@ lines (DESIGN §3, Appendix B).
 
 import (
+	"sort"
 	"bufio"
 	"fmt"
 	"go/types"
@@ -663,4 +664,41 @@ func (fc *FuncContract) declaresGhost(name string) bool {
 		}
 	}
 	return false
+}
+
+type missingFunc struct {
+	fnKey string
+	file  string
+	line  int
+}
+
+// missingContractFuncs: function contracts that match no function of the module.
+func (g *Gen) missingContractFuncs() []missingFunc {
+	have := map[string]bool{}
+	for _, f := range g.allFuncs {
+		have[g.contractKey(f)] = true
+	}
+	var out []missingFunc
+	for k, fc := range g.ann.funcs {
+		if have[k] {
+			continue
+		}
+		i := strings.Index(k, ":")
+		if i < 0 {
+			continue
+		}
+		pkg, rest := k[:i], k[i+1:]
+		if pkg == "" {
+			pkg = "mangos"
+		}
+		fk := pkg + "." + rest
+		if strings.HasPrefix(rest, "(*") {
+			fk = "(*" + pkg + "." + rest[2:]
+		} else if strings.HasPrefix(rest, "(") {
+			fk = "(" + pkg + "." + rest[1:]
+		}
+		out = append(out, missingFunc{fk, fc.file, fc.line})
+	}
+	sort.Slice(out, func(i, j int) bool { return out[i].fnKey < out[j].fnKey })
+	return out
 }
